@@ -1,14 +1,16 @@
 //! Kani harnesses for the shared handles of src/channel/state_broadcast.rs (hooked inside `if_alloc::shared`): lifecycle C11.
 //! GROUP: state_broadcast_shared
 //! MODULE: channel::state_broadcast::if_alloc::shared::kani_verif_shared
-//! TAGS: C01 C11 C17
+//! TAGS: C01 C11 C17 C13
 //! N: quick=4 thorough=4
 //! UNWIND_EXTRA: 3
 //! KIND: harness (loop-free handle code; full-domain handle counters where there are any)
-//! BOUNDED: clone: full usize domain of the handle counter; drop: counter values 1, 2, isize::MAX; no waiters queued
+//! BOUNDED: clone: full usize domain of the handle counter; drop: counter values 1, 2, isize::MAX; at most one receiver waiting
 //! GENERATED from kani/shared_template.rs.in by kani/gen_oneshot.py.
 use super::*;
 use core::sync::atomic::Ordering;
+#[path = "/verif/kani/kit.rs"]
+mod kit;
 
 fn closed_flag(ch: &GenericStateBroadcastChannel<NoopLock, u8>) -> bool {
     ch.inner.lock().is_closed
@@ -80,6 +82,48 @@ unsafe fn nw_clone(_: *const ()) -> core::task::RawWaker {
 }
 unsafe fn nw_noop(_: *const ()) {}
 static NOOP: core::task::RawWakerVTable = core::task::RawWakerVTable::new(nw_clone, nw_noop, nw_noop, nw_noop);
+
+/// the shared handles put nothing of their own between the futures and the channel: a re-poll refreshes the stored waker,
+/// and send / close wake the pending receiver exactly once, through the waker of its LATEST poll
+#[kani::proof]
+fn shared_receive_repoll_then_woken_through_latest_waker() {
+    use core::future::Future;
+    let (s, r) = generic_state_broadcast_channel::<NoopLock, u8>();
+    let w0 = kit::waker(0);
+    let w1 = kit::waker(1);
+    let mut f = core::mem::ManuallyDrop::new(r.receive(StateId::new()));
+    let mut cx0 = core::task::Context::from_waker(&w0);
+    let p = unsafe { core::pin::Pin::new_unchecked(&mut *f) }.poll(&mut cx0);
+    assert!(p.is_pending());
+    let mut cx1 = core::task::Context::from_waker(&w1);
+    let p = unsafe { core::pin::Pin::new_unchecked(&mut *f) }.poll(&mut cx1);
+    assert!(p.is_pending() && kit::total_wakes() == 0, "[C13] polling wakes nobody");
+    let with_value: bool = kani::any();
+    if with_value {
+        let _ = s.send(7);
+    } else {
+        let _ = s.inner.channel.close();
+    }
+    assert!(kit::wakes(1) == 1 && kit::wakes(0) == 0, "[C13] a pending shared receiver is woken by send / close exactly once, through the waker of its LATEST poll");
+    let p = unsafe { core::pin::Pin::new_unchecked(&mut *f) }.poll(&mut cx1);
+    assert!(p.is_ready(), "[C13] [C11] the woken shared receiver completes");
+    core::mem::forget((s, r));
+}
+
+/// try_receive through the shared receiver is the channel's try_receive: after the implicit close (last sender dropped) a
+/// receiver that has not yet seen the latest state still gets it
+#[kani::proof]
+fn shared_try_receive_after_the_last_sender_is_dropped() {
+    let (s, r) = generic_state_broadcast_channel::<NoopLock, u8>();
+    let v: u8 = kani::any();
+    let _ = s.send(v);
+    drop(s);
+    let got = r.try_receive(StateId::new());
+    assert!(matches!(got, Some((_, x)) if x == v), "[C13] [C11] after close a receiver that has not yet seen the latest state still gets it, also through the shared try_receive");
+    let again = r.try_receive(got.unwrap().0);
+    assert!(again.is_none(), "[C13] a receiver that has seen the latest state gets nothing newer");
+    core::mem::forget(r);
+}
 
 /// the shared (Arc) receive future: Pending keeps its handle, EVERY Ready (value or None) gives it up
 #[kani::proof]
